@@ -142,6 +142,15 @@ def replay_take(scn, variants, signature, extra_variants=()):
         for si, sp in enumerate(read_spellings(mode, i["idxs"], a_abs["dims"], tol)):
             form = (si + vi) % 2
             tup = index_tuple(i["idxs"], idx_kinds or kinds, codec, mode, form)
+            # equal index arrays are passed as one and the same object (a.ix[i, i]); the caller's index objects must not change
+            tl = list(tup)
+            for q in range(len(tl)):
+                for r in range(q):
+                    if isinstance(tl[q], np.ndarray) and isinstance(tl[r], np.ndarray) and tl[q].dtype == tl[r].dtype and tl[q].shape == tl[r].shape \
+                            and tl[q].dtype.kind in "iu" and np.array_equal(tl[q], tl[r]):
+                        tl[q] = tl[r]
+            tup = tuple(tl)
+            tup_before = repr(tup)
             prev = None
             try:
                 if sp in OPTION_SPELLINGS:
@@ -170,6 +179,8 @@ def replay_take(scn, variants, signature, extra_variants=()):
                 continue
             if A.snapshot(a) != before:
                 what = "operand modified by a read"
+            elif repr(tup) != tup_before:
+                what = "the index passed to the read was modified: %s -> %s" % (tup_before[:150], repr(tup)[:150])
             elif exp["ok"]:
                 if err is not None:
                     what = "expected a result, got %s: %s" % (type(err).__name__, str(err)[:200])
